@@ -1,7 +1,7 @@
 (* Extract/RunCore.v — runner commands 1-99: the core integral models. *)
 From Coq Require Import ZArith QArith Qcanon List.
 From GB Require Import Base.Field Base.FNum Model.Shell Model.MomentInt Model.Spherical
-  Model.Assembly Model.Overlap Model.DiffOp Model.OneElec Model.OneBody Extract.Sx.
+  Model.Assembly Model.Overlap Model.DiffOp Model.OneElec Model.TwoElec Model.OneBody Extract.Sx.
 Import ListNotations.
 
 Definition err (code : Z) : sx := SL [SZ (-1); SZ code].
@@ -61,6 +61,13 @@ Definition run_core (K : Fops Qc) (c : Z) (args : list sx) : option sx :=
   | 16%Z, [pts; basis; t] =>
       Some (enc2 (nuclear_attraction_integral K (dec_list dec_pt pts) (dec_list dec_shell basis)
                 (dec_opt dec_mat t)))
+  (* 20: ElectronRepulsionIntegral.construct_array_contraction -> [M1][L1][M2][L2][M3][L3][M4][L4]
+     21: electron_repulsion_integral(basis, T, notation) (0 chemist, 1 physicist) *)
+  | 20%Z, [s1; s2; s3; s4] =>
+      Some (enc_list (enc_list (enc_list (enc_list enc4)))
+              (eri_block K (dec_shell s1) (dec_shell s2) (dec_shell s3) (dec_shell s4)))
+  | 21%Z, [basis; t; nota] =>
+      Some (enc4 (eri_integral K (dec_list dec_shell basis) (dec_opt dec_mat t) (dec_bool nota)))
   | _, _ => None
   end.
 
